@@ -26,13 +26,15 @@ def band_amp(name, band, nf_min, gain_flatmax=26, gain_min=15, p_max=23):
             'p_max': p_max, 'nf_min': nf_min, 'nf_max': nf_min + 4, 'out_voa_auto': False, 'allowed_for_design': False}
 
 
-def library(groups, allowed, restrictions=None):
-    """groups: {multi-band type: (C amplifier, L amplifier)}; allowed: the types flagged for design"""
+def library(groups, allowed, restrictions=None, omit_flag=False):
+    """groups: {multi-band type: (C amplifier, L amplifier)}; allowed: the types flagged for design (with omit_flag the others
+    carry no allowed_for_design key at all: only types marked true are considered by auto-design)"""
     amps = {'A_C': band_amp('A_C', 'C', 7), 'B_C': band_amp('B_C', 'C', 5), 'D_C': band_amp('D_C', 'C', 6, gain_flatmax=16, gain_min=8),
             'shared_L': band_amp('shared_L', 'L', 6), 'quiet_L': band_amp('quiet_L', 'L', 5), 'small_L': band_amp('small_L', 'L', 5, gain_flatmax=16, gain_min=8)}
     used = sorted({x for g in groups.values() for x in g})
     return {
-        'Edfa': [amps[x] for x in used] + [{'type_variety': g, 'type_def': 'multi_band', 'amplifiers': list(m), 'allowed_for_design': g in allowed}
+        'Edfa': [amps[x] for x in used] + [{'type_variety': g, 'type_def': 'multi_band', 'amplifiers': list(m),
+                                           **({} if (omit_flag and g not in allowed) else {'allowed_for_design': g in allowed})}
                                           for g, m in groups.items()],
         'Fiber': [{'type_variety': 'SSMF', 'dispersion': 1.67e-05, 'effective_area': 83e-12, 'pmd_coef': 1.265e-15}],
         'Span': [{'power_mode': True, 'delta_power_range_db': [0, 0, 0.5], 'max_fiber_lineic_loss_for_raman': 0.25, 'target_extended_gain': 2.5,
@@ -69,12 +71,13 @@ for (label, groups), km in itertools.product(GROUPS.items(), ([80, 80], [40, 100
                                              ([80, 80], [40, 100], [100, 40], [60, 60], [120, 30], [25, 25])):
     names = list(groups)
     subsets = [s for r in range(1, len(names) + 1) for s in itertools.combinations(names, r)]
-    for allowed, by_list in itertools.product(subsets, (False, True)):
+    for allowed, how in itertools.product(subsets, ('flag', 'list', 'flag, others without the key')):
+        by_list = how == 'list'
         cases += 1
-        key = f'{label}:{km} km:permitted {list(allowed)} ' + ('(ROADM variety lists)' if by_list else '(allowed_for_design)')
+        key = f'{label}:{km} km:permitted {list(allowed)} ' + {'list': '(ROADM variety lists)', 'flag': '(allowed_for_design)'}.get(how, f'({how})')
         restr = {'preamp_variety_list': list(allowed), 'booster_variety_list': list(allowed)} if by_list else None
         # with variety lists every type is flagged for design: only the lists restrict
-        lib = library(groups, names if by_list else allowed, restr)
+        lib = library(groups, names if by_list else allowed, restr, omit_flag=how.endswith('key'))
         try:
             eq = _equipment_from_json(deepcopy(lib), DEFAULT_EXTRA_CONFIG)
             net = network_from_json(topology(km), eq)
@@ -103,7 +106,34 @@ for (label, groups), km in itertools.product(GROUPS.items(), ([80, 80], [40, 100
                     prob.append(f'{n.uid}/{band}: {amp.params.type_variety} does not cover the design band')
         if prob:
             wit.append({'key': key, 'problems': prob[:4]})
+# single-band selection: a library entry that does not say allowed_for_design is not a candidate, however quiet it is
+for km in ([80], [40, 100], [120]):
+    for flagged_nf, unflagged_nf in ((7, 4.5), (5, 6)):
+        cases += 1
+        key = f'single band:{km} km:flagged NF {flagged_nf}, entry without the key NF {unflagged_nf}'
+        lib = library({}, [])
+        mk = lambda nm, nf: {k: v for k, v in band_amp(nm, 'C', nf).items() if k != 'allowed_for_design'}
+        lib['Edfa'] = [dict(mk('flagged', flagged_nf), allowed_for_design=True), mk('unflagged', unflagged_nf),
+                       dict(mk('refused', 4.2), allowed_for_design=False)]
+        fib = lambda uid, length: {'uid': uid, 'type': 'Fiber', 'type_variety': 'SSMF', 'params': {'length': length, 'loss_coef': 0.2, 'length_units': 'km'}}
+        els = [{'uid': 'trx A', 'type': 'Transceiver'}, {'uid': 'trx B', 'type': 'Transceiver'}, {'uid': 'roadm A', 'type': 'Roadm'},
+               {'uid': 'roadm B', 'type': 'Roadm'}] + [fib(f'f{i}', x) for i, x in enumerate(km)] + [fib('back', 80)]
+        chain = ['trx A', 'roadm A'] + [f'f{i}' for i in range(len(km))] + ['roadm B', 'trx B']
+        cons = list(zip(chain, chain[1:])) + [('trx B', 'roadm B'), ('roadm B', 'back'), ('back', 'roadm A'), ('roadm A', 'trx A')]
+        try:
+            eq = _equipment_from_json(deepcopy(lib), DEFAULT_EXTRA_CONFIG)
+            net = network_from_json({'elements': els, 'connections': [{'from_node': x, 'to_node': y} for x, y in cons]}, eq)
+            ref = PathRequest(power=dbm2watt(0), tx_power=dbm2watt(0), nb_channel=automatic_nch(C_BAND['f_min'], C_BAND['f_max'], C_BAND['spacing']))
+            add_missing_elements_in_network(net, eq)
+            build_network(net, eq, ref)
+            from gnpy.core.elements import Edfa as _Edfa
+            bad = [f'{n.uid}: {n.params.type_variety}' for n in net.nodes() if isinstance(n, _Edfa) and n.params.type_variety != 'flagged']
+            if bad:
+                wit.append({'key': key, 'problems': [f'models outside the permitted set [flagged] were selected: {bad[:4]}']})
+        except Exception as e:
+            wit.append({'key': key, 'problems': [f'auto-design did not complete: {type(e).__name__}: {e}'[:300]]})
 finish('multi-band auto-selection: type from the permitted set, band amplifiers of that type covering their design band', 'bounded',
        'gnpy.core.network.preselect_multiband_amps / set_egress_amplifier / get_node_restrictions (through build_network)',
        f'{len(GROUPS)} synthetic libraries of multi-band types sharing band amplifiers x every non-empty permitted subset (by allowed_for_design, '
-       'by ROADM variety lists) x span pairs', cases, wit, t0=t0)
+       'by allowed_for_design with the key absent on the others, by ROADM variety lists) x span pairs; single-band lines with a flagged, an unflagged '
+       '(no key) and a refused model', cases, wit, t0=t0)
